@@ -160,7 +160,7 @@ def wc_factory() -> Any:
 
 
 def run_check(tier: str, seed: int, workers: Any) -> Dict[str, Any]:
-    budget = {'K': 2, 'J': 2} if tier == 'quick' else {'K': 3, 'J': 3}
+    budget = {'K': 2, 'J': 2} if tier == 'quick' else {'K': 3, 'J': 2}
     part1 = runner.run_explorer(
         factory, (), units_for(tier), budget, seed, workers,
         rule='(i) every placement of <=J resume calls (values v1, None, no value) and <=K pause/play requests between any '
@@ -179,7 +179,7 @@ def run_check(tier: str, seed: int, workers: Any) -> Dict[str, Any]:
     for v in part2['violations']:
         v['features'] = dict(v.get('features', {}), part='workchain')
     tiny = [(p, None) for p in programs.linear_programs(2, ('S', 'Y1'), ('wait',), ('ret',), min_len=2)]
-    kbudget = {'K': 3, 'J': 1} if tier == 'quick' else {'K': 4, 'J': 2}
+    kbudget = {'K': 3, 'J': 1} if tier == 'quick' else {'K': 4, 'J': 1}
     part3 = runner.run_explorer(
         kill_factory, (), tiny, kbudget, seed, workers,
         rule='(iii) the two-step waiting programs with <=K requests from ' + repr(KILL_ALPHABET[1:]) + ' and <=J resumes: a kill '
